@@ -1,4 +1,5 @@
-/* contracts of bloc::FORALLStatement::parse_clause and bloc::FORStatement::parse_clause (C11).
+/* contracts of the parse_clause functions of FORALL, FOR, IF and WHILE (C11): the compilers of a block body.
+ * IF / WHILE: the block opened for the clause is closed exactly once on both exits and a rejected clause leaves nothing behind.
  * FORALL: while the body of a forall is compiled the iterator variable
  * is type-protected and inherits the lock of the table, and the table's symbol is locked.  Whether the body compiles
  * or is rejected (ParseError), the iterator's symbol gets back exactly the protection flag and the lock it had, the
@@ -73,7 +74,7 @@ PROP(C11) __CPROVER_ensures(SAFETY(g_var_sym) == __CPROVER_old(SAFETY(g_var_sym)
 /* (Symbol::safety() is `_safety || _locked`; FORALLStatement::parse refuses a protected iterator symbol before it gets here: then the two flags themselves are restored) */
 PROP(C11) __CPROVER_ensures(!__CPROVER_old(SAFETY(g_var_sym)) ==> (!g_var_sym._safety && !g_var_sym._locked))
 /* ... and so does the table's symbol */
-PROP(C11) __CPROVER_ensures(g_exp_sym._locked == __CPROVER_old(g_exp_sym._locked) && g_exp_sym._safety == __CPROVER_old(g_exp_sym._safety))
+PROP(C09, C11) __CPROVER_ensures(g_exp_sym._locked == __CPROVER_old(g_exp_sym._locked) && g_exp_sym._safety == __CPROVER_old(g_exp_sym._safety))
 /* the block opened for the body is closed exactly once */
 PROP(C11) __CPROVER_ensures(g_begin_n == 1 && g_end_n == 1 && g_begin_arg == (const void *)rof)
 /* a rejected body leaves no compiled statement behind */
@@ -93,6 +94,24 @@ PROP(C01, C11) __CPROVER_ensures(OK || (__exc == 1 && __exc_type == G2C_EXC_Pars
 PROP(C11) __CPROVER_ensures(SAFETY(g_var_sym) == __CPROVER_old(SAFETY(g_var_sym)) && g_var_sym._locked == __CPROVER_old(g_var_sym._locked))
 PROP(C11) __CPROVER_ensures(!__CPROVER_old(g_var_sym._locked) ==> g_var_sym._safety == __CPROVER_old(g_var_sym._safety))
 PROP(C11) __CPROVER_ensures(g_begin_n == 1 && g_end_n == 1 && g_begin_arg == (const void *)rof)
+PROP(C11) __CPROVER_ensures(!OK ==> g_stmt_del_n == g_stmt_n)
+PROP(C11) __CPROVER_ensures(OK ==> (g_stmt_del_n == 0 && g_stmt_n >= 1 && RET != 0))
+;
+#endif
+#if defined(JOB_IF) || defined(JOB_WHILE)
+#ifdef JOB_IF
+struct Executable *_ZN4bloc11IFStatement12parse_clauseERNS_6ParserERNS_7ContextEPS0_(struct Parser *p, struct Context *ctx, struct IFStatement *rof)
+#else
+struct Executable *_ZN4bloc14WHILEStatement12parse_clauseERNS_6ParserERNS_7ContextEPNS_9StatementE(struct Parser *p, struct Context *ctx, struct Statement *rof)
+#endif
+__CPROVER_requires(IS_FRESH(ctx, sizeof(*ctx)) && IS_FRESH(rof, sizeof(*rof)))
+__CPROVER_requires(INPUT_STATE(g_tok[0].code, g_tok[1].code, g_tok[2].code, g_tok[3].code, g_tok[4].code, g_tok[5].code))
+__CPROVER_requires(__exc == 0 && __caught_n == 0 && g_begin_n == 0 && g_end_n == 0 && g_stmt_n == 0 && g_stmt_del_n == 0 && g_pop_n == 0 && GLOBALS_PINNED)
+__CPROVER_assigns()
+PROP(C01, C11) __CPROVER_ensures(OK || (__exc == 1 && __exc_type == G2C_EXC_ParseError))
+/* accepted or rejected: the block opened for the clause is closed exactly once (the context's nesting level is what it was) */
+PROP(C11) __CPROVER_ensures(g_begin_n == 1 && g_end_n == 1 && g_begin_arg == (const void *)rof)
+/* a rejected clause leaves no compiled statement behind; an accepted one has at least one statement */
 PROP(C11) __CPROVER_ensures(!OK ==> g_stmt_del_n == g_stmt_n)
 PROP(C11) __CPROVER_ensures(OK ==> (g_stmt_del_n == 0 && g_stmt_n >= 1 && RET != 0))
 ;
